@@ -159,8 +159,8 @@ func VerifC08H265Aggregation() {
 }
 
 func VerifC08AV1() {
-	in1 := verifBytes("in1", verifCase("len1", 0, verifBound("C08.len.nal")))
-	in2 := verifBytes("in2", verifCase("len2", 0, verifBound("C08.len2")))
+	in1 := verifBytes("in1", verifCase("len1", 0, verifBound("C08.len.av1")))
+	in2 := verifBytes("in2", verifCase("len2", 0, verifBound("C08.len2.av1")))
 	// the AV1 payloader reserves cap = MTU per packet, so the MTU is kept small enough to enumerate
 	mtu := verifU16("mtu")
 	verifAssume(int(mtu) <= len(in1)+4)
